@@ -82,6 +82,7 @@ func (m *MTProto) sendPacket(request tl.Object, expectedTypes ...reflect.Type) (
 // stays still or goes back. must be called under seqNoMutex
 func (m *MTProto) nextMsgID() int64 {
 	msgID := utils.GenerateMessageId()
+	msgID = verifClock(msgID)
 	if msgID <= m.lastMsgID {
 		msgID = m.lastMsgID + 4 // nolint:gomnd msgID of client must be divisible by 4
 	}
